@@ -1,0 +1,246 @@
+//! Verification hooks. Compiled only with the `verif-hooks` cargo feature.
+//!
+//! DO NOT USE! Thin, additive wrappers that expose crate-private pieces (the
+//! frame codec, the handshake entry point and the fair queue) to an external
+//! test harness. Nothing in here changes library behaviour.
+
+use crate::codec::{
+    FrameableRead, FrameableWrite, FramedIo, Message, TrySend, ZmqFramedRead, ZmqFramedWrite,
+};
+use crate::fair_queue::{FairQueue, QueueInner};
+use crate::util::PeerIdentity;
+use crate::{MultiPeerBackend, ZmqError, ZmqResult};
+
+use futures::{AsyncRead, AsyncWrite, SinkExt, Stream};
+use parking_lot::Mutex;
+
+use std::convert::TryFrom;
+use std::hash::Hash;
+use std::pin::Pin;
+use std::sync::Arc;
+use std::task::{Context, Poll};
+
+pub mod codec {
+    //! The crate-private ZMTP codec, with its items mapped to plain data.
+    use crate::codec::mechanism::ZmqMechanism;
+    use crate::codec::{Message, ZmqCodec, ZmqCommand, ZmqGreeting};
+    use crate::{SocketType, ZmqError, ZmqMessage};
+
+    use asynchronous_codec::{Decoder, Encoder};
+    use bytes::{Bytes, BytesMut};
+
+    use std::convert::TryFrom;
+
+    /// Plain-data mirror of the codec's item type.
+    #[derive(Debug, Clone)]
+    pub enum Item {
+        Greeting {
+            version: (u8, u8),
+            mechanism: String,
+            as_server: bool,
+        },
+        /// `properties` is sorted by name.
+        Command {
+            name: String,
+            properties: Vec<(String, Bytes)>,
+        },
+        Message(ZmqMessage),
+    }
+
+    impl From<Message> for Item {
+        fn from(m: Message) -> Self {
+            match m {
+                Message::Greeting(g) => Item::Greeting {
+                    version: g.version,
+                    mechanism: g.mechanism.as_str().to_string(),
+                    as_server: g.as_server,
+                },
+                Message::Command(c) => {
+                    let mut properties: Vec<(String, Bytes)> = c.properties.into_iter().collect();
+                    properties.sort();
+                    Item::Command {
+                        name: c.name.as_str().to_string(),
+                        properties,
+                    }
+                }
+                Message::Message(m) => Item::Message(m),
+            }
+        }
+    }
+
+    impl TryFrom<Item> for Message {
+        type Error = ZmqError;
+
+        /// Only what the library itself can emit is convertible: greetings with a
+        /// known mechanism and READY commands carrying a known `Socket-Type`.
+        fn try_from(i: Item) -> Result<Self, ZmqError> {
+            Ok(match i {
+                Item::Greeting {
+                    version,
+                    mechanism,
+                    as_server,
+                } => Message::Greeting(ZmqGreeting {
+                    version,
+                    mechanism: ZmqMechanism::try_from(mechanism.as_bytes())?,
+                    as_server,
+                }),
+                Item::Command { name, properties } => {
+                    if name != "READY" {
+                        return Err(ZmqError::Other("only READY can be encoded"));
+                    }
+                    let socket_type = properties
+                        .iter()
+                        .find(|(k, _)| k == "Socket-Type")
+                        .ok_or(ZmqError::Other("READY needs a Socket-Type"))
+                        .and_then(|(_, v)| SocketType::try_from(&v[..]))?;
+                    let mut c = ZmqCommand::ready(socket_type);
+                    for (k, v) in properties {
+                        c.add_prop(k, v);
+                    }
+                    Message::Command(c)
+                }
+                Item::Message(m) => Message::Message(m),
+            })
+        }
+    }
+
+    /// The real frame codec behind a newtype.
+    pub struct Codec(ZmqCodec);
+
+    impl Codec {
+        #[allow(clippy::new_without_default)]
+        pub fn new() -> Self {
+            Self(ZmqCodec::new())
+        }
+
+        pub fn decode(&mut self, src: &mut BytesMut) -> Result<Option<Item>, ZmqError> {
+            Ok(self.0.decode(src)?.map(Item::from))
+        }
+
+        pub fn encode(&mut self, item: Item, dst: &mut BytesMut) -> Result<(), ZmqError> {
+            Ok(self.0.encode(Message::try_from(item)?, dst)?)
+        }
+
+        pub fn debug_state(&self) -> String {
+            format!("{:?}", self.0)
+        }
+    }
+}
+
+/// The real framed reader the sockets use, over a harness supplied byte source.
+pub struct FramedReader(ZmqFramedRead);
+
+impl FramedReader {
+    pub fn new<R>(reader: R) -> Self
+    where
+        R: AsyncRead + Unpin + Send + Sync + 'static,
+    {
+        let reader: Box<dyn FrameableRead> = Box::new(reader);
+        Self(asynchronous_codec::FramedRead::new(
+            reader,
+            crate::codec::ZmqCodec::new(),
+        ))
+    }
+
+    pub fn debug_state(&self) -> String {
+        format!("{:?}", self.0.decoder())
+    }
+
+    pub fn buffered(&self) -> usize {
+        self.0.read_buffer().len()
+    }
+}
+
+impl Stream for FramedReader {
+    type Item = ZmqResult<codec::Item>;
+
+    fn poll_next(mut self: Pin<&mut Self>, cx: &mut Context<'_>) -> Poll<Option<Self::Item>> {
+        Pin::new(&mut self.0)
+            .poll_next(cx)
+            .map(|o| o.map(|r| r.map(codec::Item::from).map_err(ZmqError::from)))
+    }
+}
+
+/// The real framed writer the sockets use, over a harness supplied byte sink.
+pub struct FramedWriter(Pin<Box<ZmqFramedWrite>>);
+
+impl FramedWriter {
+    pub fn new<W>(writer: W) -> Self
+    where
+        W: AsyncWrite + Unpin + Send + Sync + 'static,
+    {
+        let writer: Box<dyn FrameableWrite> = Box::new(writer);
+        Self(Box::pin(asynchronous_codec::FramedWrite::new(
+            writer,
+            crate::codec::ZmqCodec::new(),
+        )))
+    }
+
+    pub async fn send(&mut self, item: codec::Item) -> ZmqResult<()> {
+        Ok(self.0.send(Message::try_from(item)?).await?)
+    }
+
+    pub fn try_send(&mut self, item: codec::Item) -> ZmqResult<()> {
+        self.0.as_mut().try_send(Message::try_from(item)?)
+    }
+}
+
+/// Runs the real greeting + READY exchange and peer registration over the
+/// given byte pipe, exactly as `bind`/`connect` do for a transport stream.
+pub async fn attach<R, W>(
+    backend: Arc<dyn MultiPeerBackend>,
+    reader: R,
+    writer: W,
+) -> ZmqResult<PeerIdentity>
+where
+    R: AsyncRead + Unpin + Send + Sync + 'static,
+    W: AsyncWrite + Unpin + Send + Sync + 'static,
+{
+    let io = FramedIo::new(Box::new(reader), Box::new(writer));
+    crate::util::peer_connected(io, backend).await
+}
+
+/// The crate-private fair queue behind a newtype.
+pub struct FairQueueProbe<S, K: Clone>(FairQueue<S, K>);
+
+/// What a socket backend holds of its fair queue: used to add / remove streams.
+pub struct FairQueueHandle<S, K: Clone>(Arc<Mutex<QueueInner<S, K>>>);
+
+impl<S, K: Clone> Clone for FairQueueHandle<S, K> {
+    fn clone(&self) -> Self {
+        Self(self.0.clone())
+    }
+}
+
+impl<S, K: Clone + Eq + Hash> FairQueueHandle<S, K> {
+    pub fn insert(&self, k: K, s: S) {
+        self.0.lock().insert(k, s);
+    }
+
+    pub fn remove(&self, k: &K) {
+        self.0.lock().remove(k);
+    }
+}
+
+impl<S, K: Clone> FairQueueProbe<S, K> {
+    pub fn new(block_on_no_clients: bool) -> Self {
+        Self(FairQueue::new(block_on_no_clients))
+    }
+
+    pub fn handle(&self) -> FairQueueHandle<S, K> {
+        FairQueueHandle(self.0.inner())
+    }
+}
+
+impl<S, T, K> Stream for FairQueueProbe<S, K>
+where
+    T: Send,
+    S: Stream<Item = T> + Send + 'static,
+    K: Eq + Hash + Unpin + Clone + Send + Sync + 'static,
+{
+    type Item = (K, T);
+
+    fn poll_next(mut self: Pin<&mut Self>, cx: &mut Context<'_>) -> Poll<Option<Self::Item>> {
+        Pin::new(&mut self.0).poll_next(cx)
+    }
+}
